@@ -26,11 +26,14 @@ DM0, P0 = 30.0, 0.1
 # drifts of whole and exactly half bins occur, so that round-half-even decisions are exercised with exact arithmetic
 _cfg = {"P0": P0, "tsamp": 1e-3, "nsamples": 100000, "nchans": 64}
 DYADIC = {"P0": 1.0, "tsamp": 2.0 ** -10, "nsamples": 65536}
+# a 5 ms pulsar folded for 600 s into 64 bins: a change of the period by one part in a million drifts the last sub-integration by 7.7 bins
+PPM = {"P0": 0.005, "tsamp": 1.0e-4, "nsamples": 6000000}
+PPM_SHAPES = ((4, 3, 64), (2, 1, 64))
 DYADIC_SHAPES = ((4, 1, 32), (8, 2, 32))
 
 
 def REQUIRED(tier):
-    return ["histories", "hook_checks", "rotation_checks", "law:repeat_noop", "law:return_restores", "law:history_independence", "ops:update_dm", "ops:update_period", "shape:single_subband", "shape:single_subint", "layout:F", "layout:transposed_view", "layout:strided_view", "dyadic_histories", "exact_half_bin_states", "ops:centre_copy_retuned", "nchans:64", "nchans:128"]
+    return ["histories", "hook_checks", "rotation_checks", "law:repeat_noop", "law:return_restores", "law:history_independence", "ops:update_dm", "ops:update_period", "shape:single_subband", "shape:single_subint", "layout:F", "layout:transposed_view", "layout:strided_view", "dyadic_histories", "exact_half_bin_states", "ops:centre_copy_retuned", "nchans:64", "nchans:128", "ppm_histories"]
 
 
 def EXHAUSTIVE(tier):
@@ -52,6 +55,9 @@ def cases(tier, seed):
     rng = np.random.default_rng([seed, 1717])
     for k in range(100 if tier == "quick" else 2000):
         yield {"kind": "random", "shape": int(rng.integers(0, 3)), "hseed": int(seed) * 100003 + k, "len": 50, "layout": LAYOUTS[k % 4], "nchans": [64, 128, 32][k % 3]}
+    for si in range(len(PPM_SHAPES)):
+        for first in range(9):
+            yield {"kind": "ppm", "shape": si, "first": first}
     for si in range(len(DYADIC_SHAPES)):
         for first in range(9):
             yield {"kind": "dyadic", "shape": si, "first": first}
@@ -231,7 +237,27 @@ def dyadic_alphabet():
     return [("p", P), ("p", P * (1 + 1 / 2048)), ("p", P * (1 + 2 / 2048)), ("p", P * (1 + 3 / 2048)), ("p", P * (1 + 5 / 2048)), ("p", P * (1 - 2 / 2048)), ("dm", DM0), ("dm", DM0 + 5), ("c", 0.0)]
 
 
+def ppm_alphabet():
+    P = PPM["P0"]
+    return [("p", P), ("p", P * (1 + 1e-6)), ("p", P * (1 + 2e-6)), ("p", P * (1 - 3e-6)), ("p", P * (1 + 8e-6)), ("dm", DM0), ("dm", DM0 + 0.004), ("dm", DM0 + 0.25), ("dm", DM0 + 0.5)]
+
+
 def run_case(case, ctx):
+    if case["kind"] == "ppm" or case.get("ppm"):
+        _cfg.update(dict(PPM, nchans=64))
+        _layout["cur"] = "C"
+        shape = PPM_SHAPES[case["shape"]]
+        if case["kind"] == "history":
+            run_history(ctx, shape, [tuple(o) for o in case["ops"]], case)
+            return
+        A = ppm_alphabet()
+        for ln in range(0, 3):
+            for tail in itertools.product(range(len(A)), repeat=ln):
+                ops = [A[case["first"]]] + [A[i] for i in tail]
+                ctx.count("ppm_histories")
+                rec = {"kind": "history", "ppm": True, "shape": case["shape"], "ops": [list(o) for o in ops]}
+                run_history(ctx, shape, ops, rec)
+        return
     # cubes of two observations share fch1/foff/number of sub-bands but not the channel count (a full band and its upper half)
     _cfg.update({"P0": P0, "tsamp": 1e-3, "nsamples": 100000, "nchans": int(case.get("nchans", 64))})
     ctx.count(f"nchans:{_cfg['nchans']}")
@@ -282,6 +308,10 @@ def run_case(case, ctx):
     for _ in range(case["len"]):
         if rng.random() < 0.08:
             ops.append(("c", 0.0))
+        elif rng.random() < 0.25 and ops and any(o[0] == "dm" for o in ops):
+            # a small step from the DM installed last: the outer sub-band keeps its rounded shift while inner ones move by a bin
+            last = [o[1] for o in ops if o[0] == "dm"][-1]
+            ops.append(("dm", float(last + rng.choice([0.25, -0.25, 0.5, -0.1, 0.05, 1.0]))))
         elif rng.random() < 0.5:
             ops.append(("dm", float(rng.choice([DM0, DM0 + float(rng.integers(-40, 41)), DM0 + float(rng.uniform(-40, 40)), DM0 + float(rng.uniform(-3000, 3000))]))))
         else:
